@@ -116,6 +116,7 @@ type Scheduler struct {
 	done    []bool
 	vc      []vclock
 	writes  []access             // store history (addresses are few)
+	mreads  map[uintptr][]access // map lookups per map identity
 	greads  map[uintptr][]access // per global address
 	gwrites map[uintptr]access
 	locks   map[uintptr]*lockState
@@ -166,6 +167,9 @@ func (s *Scheduler) Store(addr unsafe.Pointer, size uintptr, site int) {
 }
 func (s *Scheduler) MapStore(id unsafe.Pointer, site int) {
 	s.point(Event{Kind: "mapstore", Addr: uintptr(id), Size: 1, Site: site})
+}
+func (s *Scheduler) MapRead(id unsafe.Pointer, site int) {
+	s.point(Event{Kind: "mapread", Addr: uintptr(id), Size: 1, Site: site})
 }
 func (s *Scheduler) Global(addr unsafe.Pointer, write bool, site int) {
 	k := "gread"
@@ -273,6 +277,31 @@ func (s *Scheduler) apply(i int) {
 			}
 		}
 		s.writes = append(s.writes, access{ev, me.clone()})
+		if ev.Kind == "mapstore" {
+			for _, r := range s.mreads[ev.Addr] {
+				if r.ev.Thread != i && !r.vc.leq(me) {
+					s.x.Races = append(s.x.Races, Race{"read-write", r.ev, ev})
+				}
+			}
+		}
+	case "mapread":
+		for _, w := range s.writes {
+			if w.ev.Kind == "mapstore" && w.ev.Addr == ev.Addr && w.ev.Thread != i && !w.vc.leq(me) {
+				s.x.Races = append(s.x.Races, Race{"read-write", w.ev, ev})
+			}
+		}
+		rs := s.mreads[ev.Addr]
+		replaced := false
+		for k := range rs {
+			if rs[k].ev.Thread == i {
+				rs[k] = access{ev, me.clone()}
+				replaced = true
+			}
+		}
+		if !replaced {
+			rs = append(rs, access{ev, me.clone()})
+		}
+		s.mreads[ev.Addr] = rs
 	case "gwrite":
 		if w, ok := s.gwrites[ev.Addr]; ok && w.ev.Thread != i && !w.vc.leq(me) {
 			s.x.Races = append(s.x.Races, Race{"write-write", w.ev, ev})
@@ -338,7 +367,7 @@ func Run(threads []func(), prefix []int, cfg Config, attach func(h any)) *Execut
 	if cfg.MaxEvents == 0 {
 		cfg.MaxEvents = 100000
 	}
-	s := &Scheduler{cfg: cfg, n: n, prefix: prefix, running: -1, arrive: make(chan arrival), greads: map[uintptr][]access{}, gwrites: map[uintptr]access{}, locks: map[uintptr]*lockState{}, x: &Execution{Panics: map[int]string{}}}
+	s := &Scheduler{cfg: cfg, n: n, prefix: prefix, running: -1, arrive: make(chan arrival), greads: map[uintptr][]access{}, mreads: map[uintptr][]access{}, gwrites: map[uintptr]access{}, locks: map[uintptr]*lockState{}, x: &Execution{Panics: map[int]string{}}}
 	s.resume = make([]chan struct{}, n)
 	s.pending = make([]Event, n)
 	s.done = make([]bool, n)
@@ -509,6 +538,9 @@ func (r *Recorder) Store(addr unsafe.Pointer, size uintptr, site int) {
 }
 func (r *Recorder) MapStore(id unsafe.Pointer, site int) {
 	r.Events = append(r.Events, Event{Kind: "mapstore", Addr: uintptr(id), Size: 1, Site: site})
+}
+func (r *Recorder) MapRead(id unsafe.Pointer, site int) {
+	r.Events = append(r.Events, Event{Kind: "mapread", Addr: uintptr(id), Size: 1, Site: site})
 }
 func (r *Recorder) Global(addr unsafe.Pointer, write bool, site int) {
 	k := "gread"
